@@ -174,6 +174,8 @@ def get_extended_status(msg, start) -> Optional[str]:
     try:
         return f"{EXTEND_CODES[status][extended_status]}  ({status:0>2x}, {extended_status:0>2x})"
     except Exception:
+        if extended_status_size:  # an additional status the tables do not list is still reported, by its code
+            return f"Extended status ({status:0>2x}, {extended_status:0>2x})"
         return None
 
 
